@@ -4,15 +4,26 @@ go 1.26
 
 require (
 	github.com/Jigsaw-Code/outline-ss-server v0.0.0
+	github.com/prometheus/client_golang v1.15.0
 	pgregory.net/rapid v1.3.0
 	verif/harness v0.0.0
 )
 
 require (
 	github.com/Jigsaw-Code/outline-sdk v0.0.14 // indirect
+	github.com/beorn7/perks v1.0.1 // indirect
+	github.com/cespare/xxhash/v2 v2.2.0 // indirect
+	github.com/golang/protobuf v1.5.3 // indirect
+	github.com/matttproud/golang_protobuf_extensions v1.0.4 // indirect
+	github.com/oschwald/geoip2-golang v1.8.0 // indirect
+	github.com/oschwald/maxminddb-golang v1.10.0 // indirect
+	github.com/prometheus/client_model v0.3.0 // indirect
+	github.com/prometheus/common v0.42.0 // indirect
+	github.com/prometheus/procfs v0.9.0 // indirect
 	github.com/shadowsocks/go-shadowsocks2 v0.1.5 // indirect
 	golang.org/x/crypto v0.17.0 // indirect
 	golang.org/x/sys v0.16.0 // indirect
+	google.golang.org/protobuf v1.30.0 // indirect
 )
 
 replace github.com/Jigsaw-Code/outline-ss-server => /repo
